@@ -587,7 +587,8 @@ def run_grouped(binary, lines, group_of, procs=4, batch=300, max_same=25):
         g, ls = item
         if g in dead:
             return g, ls, None
-        return g, ls, common.run_harness_leaks(binary, ls, leak_every=512, per_case_timeout=30.0)
+        # one decoder call on a few hundred bytes: 10 s of wall time is a hang (watchdog inside the harness)
+        return g, ls, common.run_harness_leaks(binary, ls, leak_every=512, per_case_timeout=30.0, env={"VH_CASE_TIMEOUT": "10"})
 
     with concurrent.futures.ThreadPoolExecutor(max_workers=procs) as ex:
         for g, ls, out in ex.map(one, work):
@@ -601,7 +602,8 @@ def run_grouped(binary, lines, group_of, procs=4, batch=300, max_same=25):
             for x in f:
                 k = (g, x.signature())
                 sigcount[k] = sigcount.get(k, 0) + 1
-                if sigcount[k] >= max_same:
+                # hangs are expensive (each costs a whole time budget): three of one kind retire the group
+                if sigcount[k] >= (3 if x.kind == "hang" else max_same):
                     dead.add(g)
     return results, faults, leaky, skipped
 
